@@ -319,6 +319,12 @@ func (db *DB) OpenTransaction() (*Transaction, error) {
 			<-db.writeLockC
 			return nil, err
 		}
+	} else if err := db.compTriggerWait(db.mcompCmdC); err != nil {
+		// The current memdb is empty, but a frozen memdb may still be waiting
+		// to be flushed; the transaction must not record its sequence number
+		// before that flush has been committed.
+		<-db.writeLockC
+		return nil, err
 	}
 
 	// Wait compaction when certain threshold reached.
